@@ -1,2 +1,123 @@
--- driver stub for C02 (replaced when the model is built)
-def main : IO Unit := pure ()
+import PyramidModel.Prelude
+import PyramidModel.Lemmas.Traversal
+/-! Driver for C02: one JSON case per line.  Text = list of code points, WSGI strings / bytes = list of 0..255.
+
+in : {"op":"trav","tree":T,"path":[b…]|null,"vroot":[b…]|null,"md":null|{"traverse":X,"subpath":X}}
+       T = {"g":bool,"k":[[name,T],…]}      X = null | {"s":text} | {"t":[text,…]}
+     {"op":"api","tree":T,"start":[text,…],"path":X}
+     {"op":"tpath","path":text}   {"op":"tpi","path":[b…]}   {"op":"split","path":text}   {"op":"join","tuple":[text,…]}
+out: {"ok":…} | {"err":"urldecode"|"unicodedecode"|"unicodeencode"|"keyerror"|"outside"|"badstart"}
+     for trav/api additionally "spec": the declarative reading (Lemmas/Traversal.lean `specResult`) -/
+open Pyr Pyr.Trav Lean
+
+namespace DrvC02
+
+def textOf (j : Json) : Except String Text := do
+  let cs : List Nat ← fromJson? j
+  pure (cs.map Char.ofNat)
+
+def bytesOf (j : Json) : Except String Bytes := do
+  let cs : List Nat ← fromJson? j
+  pure (cs.map UInt8.ofNat)
+
+def textsOf (j : Json) : Except String (List Text) :=
+  match j with
+  | .arr xs => xs.toList.mapM textOf
+  | _ => throw "expected a list of texts"
+
+def jText (t : Text) : Json := toJson (t.map Char.toNat)
+def jTexts (ts : List Text) : Json := Json.arr (ts.map jText).toArray
+
+partial def parseTree (j : Json) : Except String Tree := do
+  let g : Bool ← getAs j "g"
+  let kj ← getField j "k"
+  match kj with
+  | .arr xs =>
+    let kids ← xs.toList.mapM fun p =>
+      match p with
+      | .arr #[n, t] => do
+        let name ← textOf n
+        let sub ← parseTree t
+        pure (name, sub)
+      | _ => throw "bad child"
+    pure (Tree.mk g kids)
+  | _ => throw "bad kids"
+
+def parseSoT (j : Json) : Except String (Option StrOrTuple) :=
+  match j with
+  | .null => pure none
+  | _ =>
+    match j.getObjVal? "s" with
+    | .ok s => do pure (some (.str (← textOf s)))
+    | .error _ => do
+      let t ← getField j "t"
+      pure (some (.tup (← textsOf t)))
+
+def optBytes (j : Json) (k : String) : Except String (Option Bytes) :=
+  match j.getObjVal? k with
+  | .ok .null => pure none
+  | .ok v => do pure (some (← bytesOf v))
+  | .error _ => pure none
+
+def errName : Err → String
+  | .urlDecode => "urldecode"
+  | .unicodeDecode => "unicodedecode"
+  | .unicodeEncode => "unicodeencode"
+  | .keyError => "keyerror"
+  | .outsideModel => "outside"
+  | .badStart => "badstart"
+
+def jResult (r : Result) : Json := Json.mkObj [
+  ("context", jTexts r.context), ("view_name", jText r.viewName), ("subpath", jTexts r.subpath),
+  ("traversed", jTexts r.traversed), ("virtual_root", jTexts r.virtualRoot),
+  ("virtual_root_path", jTexts r.virtualRootPath)]
+
+def jOut {α} (f : α → Json) : Except Err α → List (String × Json)
+  | .ok a => [("ok", f a)]
+  | .error e => [("err", Json.str (errName e))]
+
+def handle (j : Json) : Except String Json := do
+  let op : String ← getAs j "op"
+  match op with
+  | "trav" =>
+    let tree ← parseTree (← getField j "tree")
+    let path ← optBytes j "path"
+    let vroot ← optBytes j "vroot"
+    let md ← match j.getObjVal? "md" with
+      | .ok .null => pure none
+      | .error _ => pure none
+      | .ok m => do
+        let tr ← match m.getObjVal? "traverse" with
+          | .ok v => parseSoT v
+          | .error _ => pure none
+        let sp ← match m.getObjVal? "subpath" with
+          | .ok v => parseSoT v
+          | .error _ => pure none
+        pure (some ({ traverse := tr, subpath := sp } : MatchDict))
+    let rq : Req := { pathInfo := path, vroot := vroot, matchdict := md }
+    let out := traverser tree rq
+    let spec := specTraverser tree rq
+    pure (Json.mkObj (jOut jResult out ++ [("spec", Json.mkObj (jOut jResult spec))]))
+  | "api" =>
+    let tree ← parseTree (← getField j "tree")
+    let start ← textsOf (← getField j "start")
+    let some path ← parseSoT (← getField j "path") | throw "path required"
+    let out := traverseApi tree start path
+    pure (Json.mkObj (jOut (fun (a : ApiResult) => Json.mkObj [("base", jTexts a.base), ("res", jResult a.res)]) out))
+  | "tpath" =>
+    let p ← textOf (← getField j "path")
+    pure (Json.mkObj (jOut jTexts (traversalPath p)))
+  | "tpi" =>
+    let p ← bytesOf (← getField j "path")
+    pure (Json.mkObj (jOut jTexts (traversalPathInfo p)))
+  | "split" =>
+    let p ← textOf (← getField j "path")
+    pure (Json.mkObj [("ok", jTexts (splitPathInfo p))])
+  | "join" =>
+    let t ← textsOf (← getField j "tuple")
+    pure (Json.mkObj [("ok", jText (joinPathTuple t))])
+  | _ => throw s!"unknown op {op}"
+
+end DrvC02
+
+def main : IO Unit := jsonDriver DrvC02.handle
